@@ -235,6 +235,125 @@ func (f *file) queueLenReceivers(fnName string) (int64, bool) {
 	return 0, true
 }
 
+
+// lockReleased checks the lock discipline of one function: after `<lock>.Lock()` every way out of the
+// function — each `return` and the end of the body — has released the lock, either by a
+// `defer <lock>.Unlock()` or by a `<lock>.Unlock()` statement executed before it on that path
+// (branches of if/else, switch, select and loops are followed; a branch that returns does not flow on).
+// 1 = released on every path, 0 = some path leaves with the lock held.
+func (f *file) lockReleased(fnName, lock string) (int64, bool) {
+	fd := f.funcDecl(fnName)
+	if fd == nil || fd.Body == nil {
+		return 0, false
+	}
+	sawLock := false
+	deferred := false
+	leak := false
+	isCall := func(st ast.Stmt, name string) bool {
+		es, ok := st.(*ast.ExprStmt)
+		if !ok {
+			return false
+		}
+		call, ok := es.X.(*ast.CallExpr)
+		return ok && exprStr(f.fset, call.Fun) == lock+"."+name
+	}
+	// walk returns (locked after the statements, terminated)
+	var walk func(stmts []ast.Stmt, locked bool) (bool, bool)
+	walkStmt := func(st ast.Stmt, locked bool) (bool, bool) { return locked, false }
+	walkStmt = func(st ast.Stmt, locked bool) (bool, bool) {
+		switch x := st.(type) {
+		case *ast.ExprStmt:
+			if isCall(st, "Lock") {
+				sawLock = true
+				return true, false
+			}
+			if isCall(st, "Unlock") {
+				return false, false
+			}
+		case *ast.DeferStmt:
+			if exprStr(f.fset, x.Call.Fun) == lock+".Unlock" {
+				deferred = true
+			}
+		case *ast.ReturnStmt:
+			if locked && !deferred {
+				leak = true
+			}
+			return locked, true
+		case *ast.BlockStmt:
+			return walk(x.List, locked)
+		case *ast.IfStmt:
+			l1, t1 := walk(x.Body.List, locked)
+			l2, t2 := locked, false
+			if x.Else != nil {
+				l2, t2 = walkStmt(x.Else, locked)
+			}
+			switch {
+			case t1 && t2:
+				return locked, true
+			case t1:
+				return l2, false
+			case t2:
+				return l1, false
+			}
+			return l1 || l2, false
+		case *ast.ForStmt:
+			l, _ := walk(x.Body.List, locked)
+			return l || locked, false
+		case *ast.RangeStmt:
+			l, _ := walk(x.Body.List, locked)
+			return l || locked, false
+		case *ast.SwitchStmt, *ast.TypeSwitchStmt, *ast.SelectStmt:
+			var body *ast.BlockStmt
+			switch y := x.(type) {
+			case *ast.SwitchStmt:
+				body = y.Body
+			case *ast.TypeSwitchStmt:
+				body = y.Body
+			case *ast.SelectStmt:
+				body = y.Body
+			}
+			out := locked
+			for _, cl := range body.List {
+				var list []ast.Stmt
+				switch c := cl.(type) {
+				case *ast.CaseClause:
+					list = c.Body
+				case *ast.CommClause:
+					list = c.Body
+				}
+				l, t := walk(list, locked)
+				if !t {
+					out = out || l
+				}
+			}
+			return out, false
+		}
+		return locked, false
+	}
+	walk = func(stmts []ast.Stmt, locked bool) (bool, bool) {
+		for _, st := range stmts {
+			var term bool
+			locked, term = walkStmt(st, locked)
+			if term {
+				return locked, true
+			}
+		}
+		return locked, false
+	}
+	locked, term := walk(fd.Body.List, false)
+	if !term && locked && !deferred {
+		leak = true
+	}
+	if !sawLock {
+		anchorLost("%s: %s: `%s.Lock()` not found", f.path, fnName, lock)
+		return 0, false
+	}
+	if leak {
+		return 0, true
+	}
+	return 1, true
+}
+
 func c08AppendUnique(l []string, names ...string) []string {
 	for _, n := range names {
 		dup := false
@@ -256,7 +375,7 @@ func init() {
 	mirrored["tars/adapter.go"] = c08AppendUnique(mirrored["tars/adapter.go"],
 		"AdapterProxy.Recv", "AdapterProxy.Send", "NewAdapterProxy")
 	mirrored["tars/transport/tarsclient.go"] = c08AppendUnique(mirrored["tars/transport/tarsclient.go"],
-		"TarsClient.Send", "TarsClient.ReConnect", "connection.ReConnect", "NewTarsClient", "connection.send", "connection.close")
+		"TarsClient.Send", "TarsClient.ReConnect", "connection.ReConnect", "NewTarsClient", "connection.send", "connection.close", "connection.lost")
 	mirrored["tars/endpointmanager.go"] = c08AppendUnique(mirrored["tars/endpointmanager.go"],
 		"endpointManager.preInvoke", "endpointManager.postInvoke")
 	mirrored["tars/util/rtimer/timewheel.go"] = c08AppendUnique(mirrored["tars/util/rtimer/timewheel.go"],
@@ -293,6 +412,11 @@ func init() {
 		tc := parse("tars/transport/tarsclient.go")
 		v, ok = tc.cmpLit("NewTarsClient", "config.QueueLen", token.LEQ)
 		add("callQueueLenFallbackBound", v, ok)
+		// lock discipline of the transport client: nobody leaves with connLock held
+		for _, fn := range [][2]string{{"Close", "connection.close"}, {"ReConnect", "connection.ReConnect"}, {"Lost", "connection.lost"}} {
+			v, ok = tc.lockReleased(fn[1], "c.connLock")
+			add("callConnLockReleased"+fn[0], v, ok)
+		}
 		v, ok = tc.cmpLit("TarsClient.Send", "tc.config.WriteTimeout", token.GTR)
 		add("callWriteTimeoutOffValue", v, ok)
 		st := parse("tars/setting.go")
